@@ -12,6 +12,20 @@ BASELINE_OFF = (
     "--continue-on-collection-errors --junitxml=/tmp/soundevent-baseline.junit.xml"
 )
 
+# appended to every technique: the sequencing / provenance layer of the workloads (DESIGN.md §2.2a)
+SEQ = ("; stateful workloads: repeated calls on the same objects, inputs and returned values edited in place between calls, "
+       "varied construction paths and containers, interleaved calls (DESIGN.md §2.2a)")
+EXTRA = {
+    "C06": "; areal pairs on a shared lattice judged by an exact cell-counting IoU reference",
+    "C15": "; lossless FLAC / AIFF / W64 / CAF / AU / 24-, 32-bit and float WAV files judged against a whole-file decode",
+    "C17": "; data content NaN / inf / equal to the fill value, samples located by coordinate",
+    "C12": "; exact near misses of a threshold by 2**-k decided without a band",
+    "C07": "; two live result streams consumed in lockstep",
+    "C14": "; two live result streams consumed in lockstep",
+    "C18": "; the same parsed document and the same collection converted again with other directories",
+    "C19": "; nearest-neighbour (ulp, case, whitespace, unicode form) variants of every leaf for equality / hash coherence",
+}
+
 # id -> (technique, level text, level note, design_ref)
 CHECKS = {
     "C12": (
@@ -175,7 +189,7 @@ def main():
             "engine": "rv",
             "level_claimed": {"category": "exploration", "text": text, "design_ref": ref},
             "level_note": note,
-            "technique": "runtime monitoring: " + tech,
+            "technique": "runtime monitoring: " + tech + EXTRA.get(pid, "") + SEQ,
         })
     na = [
         {"property_id": pid, "reason": NOT_YET.get(pid, "monitor not built yet in this session (planned: see DESIGN.md §4); not claimed until its check exists and is silent on the unchanged tree")}
